@@ -104,6 +104,10 @@ Section Eqs.
   Proof. destruct v; reflexivity. Qed.
   Lemma wt_TDisc v p wf sup : wt v (TDisc p wf sup) = wt v (TDc p).
   Proof. destruct v; reflexivity. Qed.
+  Lemma pack_TDiscU m v cs wf sb sp pc px k : pack m v (TDiscU cs wf sb sp) pc px k = pack m v (TUnion cs) pc px k.
+  Proof. destruct v; reflexivity. Qed.
+  Lemma wt_TDiscU v cs wf sb sp : wt v (TDiscU cs wf sb sp) = wt v (TUnion cs).
+  Proof. destruct v; reflexivity. Qed.
   Lemma wt_TUnion v cs :
     wt v (TUnion cs) = match v with
                          | VInst cr i j fs => existsb (Nat.eqb cr) cs && inst_ok cr cr i j fs
@@ -306,6 +310,7 @@ Section Trace.
       + rewrite wt_TOpt in Hw. rewrite pack_TOpt. apply IHt; assumption.
       + discriminate.
       + rewrite wt_TDisc, wt_TDc in Hw; discriminate.
+      + discriminate.
     - (* VNone *)
       induction t; intros pc px k Hu Hw Hk.
       + rewrite wt_TInt in Hw; discriminate.
@@ -314,6 +319,7 @@ Section Trace.
       + rewrite pack_TOpt. reflexivity.
       + discriminate.
       + rewrite wt_TDisc, wt_TDc in Hw; discriminate.
+      + discriminate.
     - (* VInst *)
       induction t; intros pc px k Hu Hw Hk.
       + rewrite wt_TInt in Hw; discriminate.
@@ -322,6 +328,7 @@ Section Trace.
       + rewrite wt_TOpt in Hw. rewrite pack_TOpt. apply IHt; assumption.
       + discriminate.
       + rewrite wt_TDisc in Hw. rewrite pack_TDisc. apply inst_trace; assumption.
+      + discriminate.
     - (* VList *)
       induction t; intros pc px k Hu Hw Hk.
       + rewrite wt_TInt in Hw; discriminate.
@@ -331,6 +338,7 @@ Section Trace.
       + rewrite wt_TOpt in Hw. rewrite pack_TOpt. apply IHt; assumption.
       + discriminate.
       + rewrite wt_TDisc, wt_TDc in Hw; discriminate.
+      + discriminate.
   Qed.
 End Trace.
 
@@ -501,29 +509,14 @@ Section Once.
     rewrite call_ok. apply body_once; assumption.
   Qed.
 
-  Theorem pack_mixin_once : forall v, good1 v.
+  Lemma union_once c i j fs :
+    Forall (fun kx => good1 (snd kx)) fs ->
+    forall cs pc px k, wt E true (VInst c i j fs) (TUnion cs) = true ->
+      fst (pack E stubs Mixin (VInst c i j fs) (TUnion cs) pc px k) = true /\
+      map erase (snd (pack E stubs Mixin (VInst c i j fs) (TUnion cs) pc px k)) = map erase (trav E pc k (VInst c i j fs)).
   Proof.
-    induction v using val_ind'; unfold good1.
-    - induction t; intros pc px k Hw.
-      + split; reflexivity.
-      + rewrite wt_TDc in Hw; discriminate.
-      + rewrite wt_TList in Hw; discriminate.
-      + rewrite wt_TOpt in Hw. rewrite pack_TOpt. apply IHt; assumption.
-      + rewrite wt_TUnion in Hw; discriminate.
-      + rewrite wt_TDisc, wt_TDc in Hw; discriminate.
-    - induction t; intros pc px k Hw.
-      + rewrite wt_TInt in Hw; discriminate.
-      + rewrite wt_TDc in Hw; discriminate.
-      + rewrite wt_TList in Hw; discriminate.
-      + rewrite pack_TOpt. split; reflexivity.
-      + rewrite wt_TUnion in Hw; discriminate.
-      + rewrite wt_TDisc, wt_TDc in Hw; discriminate.
-    - induction t; intros pc px k Hw.
-      + rewrite wt_TInt in Hw; discriminate.
-      + apply inst_once; assumption.
-      + rewrite wt_TList in Hw; discriminate.
-      + rewrite wt_TOpt in Hw. rewrite pack_TOpt. apply IHt; assumption.
-      + rewrite wt_TUnion in Hw. apply andb_true_iff in Hw as [Hmem Hok]. unfold inst_ok in Hok.
+    intros H cs pc px k Hw.
+    rewrite wt_TUnion in Hw. apply andb_true_iff in Hw as [Hmem Hok]. unfold inst_ok in Hok.
         apply andb_true_iff in Hok as [Hw Hall]. apply andb_true_iff in Hw as [Hw Hij].
         apply andb_true_iff in Hw as [_ Hnd].
         rewrite pack_TUnion.
@@ -541,7 +534,35 @@ Section Once.
              ++ discriminate.
           -- unfold call_mixin. rewrite (call_ok E).
              apply (body_once c i j fs _ _ pc k); assumption.
+  Qed.
+
+  Theorem pack_mixin_once : forall v, good1 v.
+  Proof.
+    induction v using val_ind'; unfold good1.
+    - induction t; intros pc px k Hw.
+      + split; reflexivity.
+      + rewrite wt_TDc in Hw; discriminate.
+      + rewrite wt_TList in Hw; discriminate.
+      + rewrite wt_TOpt in Hw. rewrite pack_TOpt. apply IHt; assumption.
+      + rewrite wt_TUnion in Hw; discriminate.
+      + rewrite wt_TDisc, wt_TDc in Hw; discriminate.
+      + rewrite wt_TDiscU, wt_TUnion in Hw; discriminate.
+    - induction t; intros pc px k Hw.
+      + rewrite wt_TInt in Hw; discriminate.
+      + rewrite wt_TDc in Hw; discriminate.
+      + rewrite wt_TList in Hw; discriminate.
+      + rewrite pack_TOpt. split; reflexivity.
+      + rewrite wt_TUnion in Hw; discriminate.
+      + rewrite wt_TDisc, wt_TDc in Hw; discriminate.
+      + rewrite wt_TDiscU, wt_TUnion in Hw; discriminate.
+    - induction t; intros pc px k Hw.
+      + rewrite wt_TInt in Hw; discriminate.
+      + apply inst_once; assumption.
+      + rewrite wt_TList in Hw; discriminate.
+      + rewrite wt_TOpt in Hw. rewrite pack_TOpt. apply IHt; assumption.
+      + apply union_once; assumption.
       + rewrite wt_TDisc in Hw. rewrite pack_TDisc. apply inst_once; assumption.
+      + rewrite wt_TDiscU in Hw. rewrite pack_TDiscU. apply union_once; assumption.
     - induction t; intros pc px k Hw.
       + rewrite wt_TInt in Hw; discriminate.
       + rewrite wt_TDc in Hw; discriminate.
@@ -549,6 +570,7 @@ Section Once.
       + rewrite wt_TOpt in Hw. rewrite pack_TOpt. apply IHt; assumption.
       + rewrite wt_TUnion in Hw; discriminate.
       + rewrite wt_TDisc, wt_TDc in Hw; discriminate.
+      + rewrite wt_TDiscU, wt_TUnion in Hw; discriminate.
   Qed.
 End Once.
 
@@ -590,6 +612,9 @@ Section DeEqs.
   Proof. destruct w; reflexivity. Qed.
   Lemma unpack_TDisc w p wf sup :
     unpack E w (TDisc p wf sup) = dispatch E (tag_of w) wf false (disc_variants E p sup) (call_dc_de w).
+  Proof. destruct w; reflexivity. Qed.
+  Lemma unpack_TDiscU w cs wf sb sp :
+    unpack E w (TDiscU cs wf sb sp) = dispatch E (tag_of w) wf false (discu_variants E cs sb sp) (call_dc_de w).
   Proof. destruct w; reflexivity. Qed.
   Lemma unpack_TUnion w cs : unpack E w (TUnion cs) = dtry (map (call_dc_de w) (dedup_nat cs [])).
   Proof. destruct w; reflexivity. Qed.
@@ -701,6 +726,7 @@ Section DeTrace.
       + rewrite unpack_TOpt in H. apply (IHt n r tr n'); assumption.
       + discriminate.
       + de_case I.
+      + discriminate.
     - induction t; intros n r tr n' Hu H.
       + rewrite unpack_TInt in H. discriminate.
       + de_case I.
@@ -708,6 +734,7 @@ Section DeTrace.
       + rewrite unpack_TOpt in H. inversion H. reflexivity.
       + discriminate.
       + de_case I.
+      + discriminate.
     - induction t; intros n r tr n' Hu H.
       + rewrite unpack_TInt in H. discriminate.
       + de_case IHk.
@@ -715,6 +742,7 @@ Section DeTrace.
       + rewrite unpack_TOpt in H. apply (IHt n r tr n'); assumption.
       + discriminate.
       + de_case IHk.
+      + discriminate.
     - induction t; intros n r tr n' Hu H.
       + rewrite unpack_TInt in H. discriminate.
       + de_case I.
@@ -724,6 +752,7 @@ Section DeTrace.
       + rewrite unpack_TOpt in H. apply (IHt n r tr n'); assumption.
       + discriminate.
       + de_case I.
+      + discriminate.
   Qed.
 End DeTrace.
 
